@@ -204,6 +204,13 @@ def shard_main(argv):
             except Exception:
                 pass
     res.counters["shard_wall_ms"] += int((time.time() - t0) * 1000)
+    try:
+        from . import taps
+
+        for k, v in taps.hits.items():
+            res.counters["tap_hits/" + k] += v
+    except Exception:
+        pass
     with open(out, "w") as f:
         json.dump(res.to_json(), f)
     return 0
@@ -242,7 +249,9 @@ def write_evidence(prop, tier, seed, mod, res, wall, verdict, extra=None):
         "rule": getattr(mod, "RULE", ""),
         "samples": res.samples if res.samples else [],
         "verdict": verdict,
-        "situation_classes": {k: v for k, v in sorted(res.counters.items()) if not k.startswith("violations/")},
+        "situation_classes": {k: v for k, v in sorted(res.counters.items())
+                              if not k.startswith(("violations/", "tap_hits/"))},
+        "observation_point_hits": {k.split("/", 1)[1]: v for k, v in sorted(res.counters.items()) if k.startswith("tap_hits/")},
         "required_classes": getattr(mod, "REQUIRED", {}).get(tier, {}),
         "maxima": res.maxima,
         "inconclusive_reasons": res.inconclusive[:5],
